@@ -58,7 +58,7 @@ Definition C10_full_statement : Prop :=
    reaches t although every command exits 0. *)
 Example C10_F8_refuted :
   let mk := {| s_deps := [[115]]; s_ifcreate := []; s_always := false; s_stamp := false;
-               s_out := ODollar3; s_payload := 7; s_cat := true; s_exit := 0%Z |} in
+               s_out := ODollar3; s_payload := 7; s_cat := true; s_exit := 0%Z; s_tol := false |} in
   let s := [115] in let t := [116] in
   let w0 := fst (last (run_history [SWrite s [1]; SWriteDo (t ++ b_do) mk; SCmd (CIfChange false [t]); SWrite s [2]]
                                    (init_world 0)) (init_world 0, None)) in
